@@ -60,6 +60,7 @@ type storedSpec struct {
 	noDate         bool
 	splitCC        bool // the directives on two Cache-Control field lines (several lines are one list)
 	badFirstCCLine bool // a Cache-Control line with an unterminated quoted-string in front of the real one
+	emptyFirstCCLine bool // an EMPTY Cache-Control field line in front of the real one(s): an empty list, it says nothing
 	bsFirst        bool // an element ending in a backslash OUTSIDE a quoted-string in front of the directives
 	rfc850         bool // Expires and Last-Modified in the obsolete rfc850 layout (valid: recipients must accept it)
 	build          bool // an ordinary end-to-end field "X-Build" on the stored response
@@ -138,6 +139,7 @@ func (g *G) genStored(focus string) storedSpec {
 	}
 	s.noDate = g.chance(0.06)
 	s.badFirstCCLine = g.chance(0.03)
+	s.emptyFirstCCLine = !s.badFirstCCLine && g.chance(0.04)
 	s.bsFirst = g.chance(0.03)
 	s.rfc850 = g.chance(0.12)
 	s.build = g.chance(0.3)
@@ -187,6 +189,9 @@ func (s storedSpec) reply(atNs int64, body string) Reply {
 	if len(cc) > 0 {
 		if s.badFirstCCLine {
 			h = append(h, [2]string{"Cache-Control", `x="unterminated`})
+		}
+		if s.emptyFirstCCLine {
+			h = append(h, [2]string{"Cache-Control", ""})
 		}
 		if s.splitCC && len(cc) >= 2 {
 			cut := 1 + len(cc)/2
@@ -288,7 +293,8 @@ func (g *G) genReqCC() []string {
 		cc = append(cc, pick(g, "max-stale", "max-stale=0", "max-stale=5", "max-stale=100", "max-stale=junk", "max-stale="+bigNums[g.r.Intn(len(bigNums))]))
 	}
 	if g.chance(0.2) {
-		cc = append(cc, "min-fresh="+pick(g, "0", "1", "5", "100", "junk"))
+		// (too large to represent: acts as at least 2^31 seconds, it does not wrap around)
+		cc = append(cc, "min-fresh="+pick(g, "0", "1", "5", "100", "junk", "2147483648", bigNums[g.r.Intn(len(bigNums))], bigNums[g.r.Intn(len(bigNums))]))
 	}
 	if g.chance(0.2) {
 		cc = append(cc, "stale-if-error="+pick(g, "0", "1", "5", "100", "3600"))
@@ -423,11 +429,16 @@ func (g *G) ccLines(cc []string) Hdr {
 		}
 		return append(Hdr{{"Cache-Control", bad}}, Hdr{{"Cache-Control", ccJoin(cc)}}...)
 	}
+	var pre Hdr
+	if g.chance(0.05) {
+		// an empty field line first: an empty list (RFC 9110 §5.6.1), the lines after it say what they say
+		pre = Hdr{{"Cache-Control", ""}}
+	}
 	if len(cc) < 2 || !g.chance(0.3) {
-		return Hdr{{"Cache-Control", ccJoin(cc)}}
+		return append(pre, [2]string{"Cache-Control", ccJoin(cc)})
 	}
 	cut := 1 + g.r.Intn(len(cc)-1)
-	return Hdr{{"Cache-Control", ccJoin(cc[:cut])}, {"Cache-Control", ccJoin(cc[cut:])}}
+	return append(pre, Hdr{{"Cache-Control", ccJoin(cc[:cut])}, {"Cache-Control", ccJoin(cc[cut:])}}...)
 }
 
 // pick2: a deterministic choice that needs no generator state (the spec is a value type)
